@@ -80,6 +80,14 @@ pub struct InstanceStateIsPrivate;
 /// assert_send::<cosmian_cover_crypt::MasterPublicKey>();
 /// assert_send::<cosmian_cover_crypt::XEnc>();
 /// ```
+/// and borrowed by several threads at once:
+/// ```
+/// fn assert_sync<T: Sync>() {}
+/// assert_sync::<cosmian_cover_crypt::UserSecretKey>();
+/// assert_sync::<cosmian_cover_crypt::MasterPublicKey>();
+/// assert_sync::<cosmian_cover_crypt::MasterSecretKey>();
+/// assert_sync::<cosmian_cover_crypt::XEnc>();
+/// ```
 /// twin that must fail (a guard is not Send), showing the assertion is not vacuous:
 /// ```compile_fail,E0277
 /// fn assert_send<T: Send>() {}
